@@ -100,9 +100,6 @@ func sorts(r *mc.Run) []sortSpec {
 		{"k:string,_id", func() search.SortOrder {
 			return search.SortOrder{fld("k", false, search.SortFieldAsString, false), id(false)}
 		}, true},
-		{"-k:string,_id", func() search.SortOrder {
-			return search.SortOrder{fld("k", true, search.SortFieldAsString, false), id(false)}
-		}, true},
 		{"n:number,_id", func() search.SortOrder {
 			return search.SortOrder{fld("n", false, search.SortFieldAsNumber, false), id(false)}
 		}, true},
@@ -112,6 +109,9 @@ func sorts(r *mc.Run) []sortSpec {
 	}
 	if !r.Quick() {
 		ss = append(ss,
+			sortSpec{"-k:string,_id", func() search.SortOrder {
+				return search.SortOrder{fld("k", true, search.SortFieldAsString, false), id(false)}
+			}, true},
 			sortSpec{"n:number:missing-first,k:string,_id", func() search.SortOrder {
 				return search.SortOrder{fld("n", false, search.SortFieldAsNumber, true), fld("k", true, search.SortFieldAsString, true), id(false)}
 			}, true},
@@ -347,34 +347,35 @@ func (c *ctx) oracle(single bleve.Index) [][]*want {
 }
 
 type shapeSpec struct {
-	name string
-	mk   func(s []bleve.Index, whole bleve.Index) bleve.Index
-	when func(counts [nShards]int) bool
+	name     string
+	mk       func(s []bleve.Index, whole bleve.Index) bleve.Index
+	when     func(counts [nShards]int) bool
+	thorough bool // not on every assignment in the quick tier (quick: only when a shard is empty)
 }
 
 var shapes = []shapeSpec{
-	{"flat(s0,s1,s2)", func(s []bleve.Index, _ bleve.Index) bleve.Index { return bleve.NewIndexAlias(s...) }, nil},
+	{"flat(s0,s1,s2)", func(s []bleve.Index, _ bleve.Index) bleve.Index { return bleve.NewIndexAlias(s...) }, nil, false},
 	{"alias(alias(s0,s1),s2)", func(s []bleve.Index, _ bleve.Index) bleve.Index {
 		in := bleve.NewIndexAlias(s[0], s[1])
 		in.SetName("inner01")
 		return bleve.NewIndexAlias(in, s[2])
-	}, nil},
+	}, nil, false},
 	{"alias(alias(s0),alias(s1,s2))", func(s []bleve.Index, _ bleve.Index) bleve.Index {
 		a := bleve.NewIndexAlias(s[0])
 		a.SetName("inner0")
 		b := bleve.NewIndexAlias(s[1], s[2])
 		b.SetName("inner12")
 		return bleve.NewIndexAlias(a, b)
-	}, nil},
+	}, nil, true},
 	// two members only: legal whenever the third shard holds nothing
 	{"flat(s0,s1)", func(s []bleve.Index, _ bleve.Index) bleve.Index { return bleve.NewIndexAlias(s[0], s[1]) },
-		func(c [nShards]int) bool { return c[2] == 0 }},
+		func(c [nShards]int) bool { return c[2] == 0 }, false},
 	// alias of one (and alias of alias of one): legal whenever one shard holds everything
 	{"alias(alias(s0))", func(s []bleve.Index, _ bleve.Index) bleve.Index {
 		in := bleve.NewIndexAlias(s[0])
 		in.SetName("inner0")
 		return bleve.NewIndexAlias(in)
-	}, func(c [nShards]int) bool { return c[1] == 0 && c[2] == 0 }},
+	}, func(c [nShards]int) bool { return c[1] == 0 && c[2] == 0 }, false},
 }
 
 // pending collects the violations of one enumeration item so that they can be reported in
@@ -556,6 +557,9 @@ func (c *ctx) assignment(cfg engineCfg, m mapping.IndexMapping, a int, ws [][]*w
 	r.Count(fmt.Sprintf("assignments_with_%d_empty_shards", empty), 1)
 	for _, sh := range shapes {
 		if sh.when != nil && !sh.when(counts) {
+			continue
+		}
+		if sh.thorough && r.Quick() && empty == 0 {
 			continue
 		}
 		if r.Expired() {
